@@ -6,5 +6,5 @@ ids="$@"; [ -z "$ids" ] && ids=$(ls seeded)
 for id in $ids; do
   checks=$(python3 -c "import json;m=json.load(open('seeded/$id/meta.json'));d=m.get('detected_by') or [m['id'][:3]];print(' '.join(d if isinstance(d,list) else [d]))")
   out=$(tools/try_seed.sh seeded/$id/patch.diff - $checks 2>&1)
-  if echo "$out" | grep -q "^VIOLATION"; then echo "$id DETECTED by $(echo "$out" | grep -B8 '^VIOLATION' | grep '^== ' | sed 's/== //' | tr '\n' ' ')"; else echo "$id MISSED ($checks): $(echo "$out" | tail -3 | tr '\n' ' ' | cut -c1-200)"; fi
+  if echo "$out" | grep -q "PATCH DOES NOT APPLY"; then echo "$id N/A (patch was written against an older /repo commit and no longer applies)"; elif echo "$out" | grep -q "^VIOLATION"; then echo "$id DETECTED by $(echo "$out" | grep -B8 '^VIOLATION' | grep '^== ' | sed 's/== //' | tr '\n' ' ')"; else echo "$id MISSED ($checks): $(echo "$out" | tail -3 | tr '\n' ' ' | cut -c1-200)"; fi
 done
